@@ -1057,3 +1057,14 @@ def get_mw_infos(_application):
 '''))
 B('k18b_format_method_shows_key', ['C18'], 'R18.b', (CK, "    def __repr__(self):\n        cn = self.__class__.__name__\n        return ('%s(arg_name=%r, cookie_name=%r)'",
                                                      "    def __format__(self, spec):\n        return '%s(%s)' % (self.__class__.__name__, self.secret_key)\n\n    def __repr__(self):\n        cn = self.__class__.__name__\n        return ('%s(arg_name=%r, cookie_name=%r)'"))
+
+# R18.a: inside the loop over the resources nothing but the 'secret' test decides what is listed
+B('k18_listing_skips_private_names', ['C18'], 'R18.a', (META, "    for key, val in _application.resources.items():\n        if 'secret' in key:",
+                                                        "    for key, val in _application.resources.items():\n        if key.startswith('_'):\n            continue\n        if 'secret' in key:"))
+B('k18_listing_capped', ['C18'], 'R18.a', (META, "        ret.append({'key': key, 'value': trunc_val})\n    return ret", "        ret.append({'key': key, 'value': trunc_val})\n        if len(ret) >= 20:\n            break\n    return ret"))
+B('k18_listing_comprehension_filter', ['C18'], 'R18.a', (META, GRI, '''def get_resource_info(_application):
+    return [{'key': key, 'value': '[REDACTED]' if 'secret' in key else _trunc(repr(val))}
+            for key, val in _application.resources.items() if not key.startswith('_')]
+'''))
+B('k18_listing_redacts_more_than_secrets', ['C18'], 'R18.a', (META, "        if 'secret' in key:\n            trunc_val = '[REDACTED]'", "        if 'secret' in key or not isinstance(val, str):\n            trunc_val = '[REDACTED]'"))
+B('k18_listing_only_string_values', ['C18'], 'R18.a', (META, "        ret.append({'key': key, 'value': trunc_val})\n    return ret", "        if isinstance(val, (str, bytes, int, float)):\n            ret.append({'key': key, 'value': trunc_val})\n    return ret"))
